@@ -196,8 +196,18 @@ def gen_modgraph(rng, profile=None):
             ent = {"name": ename, "kind": kind, "access": access, "form": form, "tr": tr()}
             if pr.get("undoc", True) and rng.random() < 0.15:
                 ent["undoc"] = True   # no doc comment: hidden by hide_undoc
+            ctor = None
+            if kind == "generic" and pr.get("ctor_generics") and rng.random() < 0.4:
+                # an overloaded structure constructor: a generic interface named like a derived type of the
+                # same module (both follow the module's default accessibility); one name, two entities
+                tys = [x for x in mod["ents"] if x["kind"] == "type" and x.get("access") is None and not x.get("ctor")]
+                if tys:
+                    ctor = rng.choice(tys)
+                    ctor["ctor"] = True
+                    ent["name"] = ctor["name"]
+                    ent["access"] = None
             if kind == "generic":
-                sp = {"name": ename + "x", "kind": "sub", "access": rng.choice([None, "private"]), "form": "stmt",
+                sp = {"name": ename + "x", "kind": "func" if ctor else "sub", "access": rng.choice([None, "private"]), "form": "stmt",
                       "tr": tr()}
                 mod["ents"].append(sp)
                 ent["specific"] = sp["name"]
@@ -257,6 +267,7 @@ def gen_modgraph(rng, profile=None):
             if e["kind"] == "sub" and pr.get("proc_calls", True) and rng.random() < 0.4:
                 pc = sorted((set(tables[name]["procs"]) | set(usemodel.imports(e.get("uses") or [], exports_of)["procs"])) - {e["name"]})
                 pc = [c for c in pc if not any(x["name"] == c and x["kind"] in ("generic", "iface") for x in mod["ents"])]
+                pc = [c for c in pc if c not in tables[name]["types"] and c not in usemodel.imports(e.get("uses") or [], exports_of)["types"]]   # a constructor is not CALLed
                 if pc:
                     e["calls"] = rng.sample(pc, min(len(pc), rng.randint(1, 2)))
         mods.append(mod)
@@ -285,7 +296,7 @@ def gen_modgraph(rng, profile=None):
             unit = {"name": pname, "uses": uses, "ents": ents, "tr": tr(), "calls": [], "vtypes": [],
                     "unknown": rng.sample([u for u in UNKNOWN_MODS if u not in present], 2)
                     if pr["unknown_uses"] and rng.random() < 0.4 else []}
-            procs = sorted(imp["procs"])
+            procs = sorted(n for n in imp["procs"] if n not in imp["types"])
             if procs:
                 unit["calls"] = rng.sample(procs, min(len(procs), rng.randint(1, 3)))
             types = sorted(imp["types"])
@@ -298,14 +309,14 @@ def gen_modgraph(rng, profile=None):
                 buses = gen_uses([m["name"] for m in mods], vis, max_uses=1, min_uses=1)
                 bimp = usemodel.imports(buses, exports_of)
                 if buses:
-                    unit["block"] = {"uses": buses, "calls": rng.sample(sorted(bimp["procs"]), min(len(bimp["procs"]), 2))}
+                    unit["block"] = {"uses": buses, "calls": (lambda bp: rng.sample(bp, min(len(bp), 2)))(sorted(n for n in bimp["procs"] if n not in bimp["types"]))}
             progs.append(unit)
         for k in range(rng.randint(0, 2)):
             ename = "%sx%d" % (px, k)
             uses = gen_uses([m["name"] for m in mods], set())
             imp = usemodel.imports(uses, exports_of)
             unit = {"name": ename, "uses": uses, "ents": [], "tr": tr(), "calls": [], "unknown": []}
-            procs = sorted(imp["procs"])
+            procs = sorted(n for n in imp["procs"] if n not in imp["types"])
             if procs:
                 unit["calls"] = rng.sample(procs, min(len(procs), rng.randint(1, 2)))
             extprocs.append(unit)
@@ -701,11 +712,11 @@ def normalize(world):
     for unit in world.get("progs", []) + world.get("extprocs", []):
         unit["uses"] = fix_uses(unit["uses"])
         imp = usemodel.imports(unit["uses"], exports_of)
-        unit["calls"] = [c for c in unit.get("calls", []) if c in imp["procs"]]
+        unit["calls"] = [c for c in unit.get("calls", []) if c in imp["procs"] and c not in imp["types"]]
         if unit.get("block"):
             unit["block"]["uses"] = fix_uses(unit["block"]["uses"])
             bimp = usemodel.imports(unit["block"]["uses"], exports_of)
-            unit["block"]["calls"] = [c for c in unit["block"]["calls"] if c in bimp["procs"]]
+            unit["block"]["calls"] = [c for c in unit["block"]["calls"] if c in bimp["procs"] and c not in bimp["types"]]
             if not unit["block"]["uses"]:
                 del unit["block"]
         for e in unit.get("ents", []):
